@@ -295,7 +295,7 @@ func init() {
 		MaxWorkers: 6,
 		CPUBudget:  600,
 		Rule: "rounds of G in {2, 8, 32(,128)} goroutines x GOMAXPROCS in {1, 2, 16}, every goroutine issuing 200 (80 when G = 128) operations drawn (seeded) from 26 concrete calls on one loaded tree - String of a layout+component-in-loop page, a loop page, an object/dump page, two pages failing at run time, a missing name, a shuffle() page; Response ok/failing/missing (error page through the string API); EvaluateString ok/failing; EvaluateFile; loops that fail in a later pass after producing output; renders without any data that assign names at top level (as integer, string, boolean, object) next to one that reads the name and must fail - with goroutine-specific data otherwise; a registered custom function called from inside the templates yields or sleeps 50us on a seeded schedule; every round also loads a tree without layouts and components right after a tree in another directory was used and makes its very first renders (failing ones included) concurrent. " +
-			"Oracles: the harness is built with the Go race detector (halt_on_error=0, log per process); after the rounds the log is parsed and every report with a frame inside the repository is a violation (de-duplicated by the pair of innermost repository frames); the recorded history (goroutine, operation, logical call/return stamps from one atomic counter, result) is checked offline against the stateless model: every result must equal what the same operation returned alone before the round (shuffle as a multiset). Evidence counts operations that overlapped an operation of a different kind. round 8: float postfix page, inline pages of several KiB, component sources through the string and file API; round 9: non-ASCII string built-ins, data-caused failures, big-input bursts; rounds 10-11: long results, failing elements, cold-start parses, assigning error page; rounds 12-13: fresh literals with markup (also at cold start), integer built-ins on goroutine data, fresh decimals longer than any other; round 14: own files rewritten in place, two types named row, self-checking operations judged alone; round 15: deep evaluations held in flight together; distinct_nontrivial = distinct (round, goroutine, operation) triples that overlapped another kind",
+			"Oracles: the harness is built with the Go race detector (halt_on_error=0, log per process); after the rounds the log is parsed and every report with a frame inside the repository is a violation (de-duplicated by the pair of innermost repository frames); the recorded history (goroutine, operation, logical call/return stamps from one atomic counter, result) is checked offline against the stateless model: every result must equal what the same operation returned alone before the round (shuffle as a multiset). Evidence counts operations that overlapped an operation of a different kind. round 8: float postfix page, inline pages of several KiB, component sources through the string and file API; round 9: non-ASCII string built-ins, data-caused failures, big-input bursts; rounds 10-11: long results, failing elements, cold-start parses, assigning error page; rounds 12-13: fresh literals with markup (also at cold start), integer built-ins on goroutine data, fresh decimals longer than any other; round 14: own files rewritten in place, two types named row, self-checking operations judged alone; round 15: deep evaluations held in flight together; round 16: first renders of the process on a tree of plain pages under a relative directory are concurrent; distinct_nontrivial = distinct (round, goroutine, operation) triples that overlapped another kind",
 		Assumptions: []string{
 			"only interleavings the scheduler produced; the race detector sees races between accesses that actually executed",
 			"custom functions are registered before the goroutines start, as the statement requires",
